@@ -14,35 +14,48 @@ import (
 	"verif/e2/spec"
 )
 
-// collectDesigns returns the extra designs (xdesigns package, listed by the worker itself) and
-// every design of every E2 family: the method cases goa accepts (pipe.Filter, one fresh process
-// per case) packed exactly as the other E2 checks pack them.
-func collectDesigns(c *core.Ctx, e *Env) ([]*DesignRef, error) {
-	var out []*DesignRef
-	o, err, _ := runCmd(e.Dir, e.env, time.Minute, e.WorkerPlain, "-list")
-	if err != nil {
-		return nil, fmt.Errorf("worker -list: %v\n%s", err, o)
+// collectDesigns returns the selection (designs that get the complete deviation menu) and the
+// other designs (thorough tier only).
+//
+// Extra designs (xdesigns package, listed by the worker itself) are always selected. From every
+// E2 family two designs are selected: the middle one and the last one (families are enumerated
+// simplest-first). Quick tier: only the method cases around the middle and at the end of the
+// family are given to goa's DSL (pipe.Filter, one fresh process per case) and packed. Thorough
+// tier: every case of every family is filtered and packed as the other E2 checks pack them;
+// families with the default packing (8 methods, 1 service) are additionally re-packed 8 x 3 for
+// the designs outside the selection (fewer, larger designs; every accepted case is in one).
+func collectDesigns(c *core.Ctx, e *Env) (sel, others []*DesignRef, err error) {
+	o, rerr, _ := runCmd(e.Dir, e.env, time.Minute, e.WorkerPlain, "-list")
+	if rerr != nil {
+		return nil, nil, fmt.Errorf("worker -list: %v\n%s", rerr, o)
 	}
 	for _, n := range strings.Fields(o) {
-		out = append(out, &DesignRef{Name: n, XDesign: n, Family: "extra"})
+		sel = append(sel, &DesignRef{Name: n, XDesign: n, Family: "extra"})
 	}
-	c.Note("designs_extra", len(out))
+	c.Note("designs_extra", len(sel))
 	specDir := filepath.Join(e.Dir, "specs")
 	if err := os.MkdirAll(specDir, 0o755); err != nil {
-		return nil, err
+		return nil, nil, err
+	}
+	write := func(fam, tag string, i int, s *spec.Spec) (*DesignRef, error) {
+		s.Name = fmt.Sprintf("d%04d", i)
+		if s.APIName == "" {
+			s.APIName = s.Name
+		}
+		b, _ := json.Marshal(s)
+		p := filepath.Join(specDir, fam+tag+"-"+s.Name+".json")
+		if err := os.WriteFile(p, b, 0o644); err != nil {
+			return nil, err
+		}
+		return &DesignRef{Name: fam + tag + "/" + s.Name, SpecPath: p, Family: fam}, nil
 	}
 	t0 := time.Now()
-	rejected := 0
+	rejected, filtered := 0, 0
 	for _, f := range families.All(c.Thorough()) {
 		if c.Expired() {
 			c.Incomplete("deadline while collecting designs: family " + f.Name + " and later not packed")
 			break
 		}
-		acc, rej, err := pipe.Filter(f.Cases)
-		if err != nil {
-			return nil, err
-		}
-		rejected += len(rej)
 		ps, pd := f.PerService, f.PerDesign
 		if ps == 0 {
 			ps = 8
@@ -50,22 +63,88 @@ func collectDesigns(c *core.Ctx, e *Env) ([]*DesignRef, error) {
 		if pd == 0 {
 			pd = 1
 		}
+		if !c.Thorough() {
+			w := 2 * ps * pd
+			n := len(f.Cases)
+			windows := [][]spec.MethodCase{f.Cases}
+			if n > 2*w {
+				lo := n/2 - w/2
+				windows = [][]spec.MethodCase{f.Cases[lo : lo+w], f.Cases[n-w:]}
+			}
+			for wi, win := range windows {
+				acc, rej, err := pipe.Filter(win)
+				if err != nil {
+					return nil, nil, err
+				}
+				rejected += len(rej)
+				filtered += len(win)
+				specs := spec.Pack(acc, ps, pd, f.Name)
+				if len(specs) == 0 {
+					continue
+				}
+				var pick []int
+				switch {
+				case len(windows) == 2 && wi == 0:
+					pick = []int{0}
+				case len(windows) == 2:
+					pick = []int{len(specs) - 1}
+				case len(specs) == 1:
+					pick = []int{0}
+				default:
+					pick = []int{len(specs) / 2, len(specs) - 1}
+				}
+				for _, i := range pick {
+					d, err := write(f.Name, fmt.Sprintf(".w%d", wi), i, specs[i])
+					if err != nil {
+						return nil, nil, err
+					}
+					sel = append(sel, d)
+				}
+			}
+			continue
+		}
+		acc, rej, err := pipe.Filter(f.Cases)
+		if err != nil {
+			return nil, nil, err
+		}
+		rejected += len(rej)
+		filtered += len(f.Cases)
 		specs := spec.Pack(acc, ps, pd, f.Name)
+		picked := map[int]bool{}
+		if len(specs) > 0 {
+			picked[len(specs)/2], picked[len(specs)-1] = true, true
+		}
 		for i, s := range specs {
-			s.Name = fmt.Sprintf("d%04d", i)
-			if s.APIName == "" {
-				s.APIName = s.Name
+			if !picked[i] && f.PerService == 0 && f.PerDesign == 0 {
+				continue // covered by the 8 x 3 packing below
 			}
-			b, _ := json.Marshal(s)
-			p := filepath.Join(specDir, f.Name+"-"+s.Name+".json")
-			if err := os.WriteFile(p, b, 0o644); err != nil {
-				return nil, err
+			d, err := write(f.Name, "", i, s)
+			if err != nil {
+				return nil, nil, err
 			}
-			out = append(out, &DesignRef{Name: f.Name + "/" + s.Name, SpecPath: p, Family: f.Name})
+			if picked[i] {
+				sel = append(sel, d)
+			} else {
+				others = append(others, d)
+			}
+		}
+		if f.PerService == 0 && f.PerDesign == 0 {
+			acc2, _, err := pipe.Filter(f.Cases)
+			if err != nil {
+				return nil, nil, err
+			}
+			for i, s := range spec.Pack(acc2, 8, 3, f.Name) {
+				d, err := write(f.Name, ".x3", i, s)
+				if err != nil {
+					return nil, nil, err
+				}
+				others = append(others, d)
+			}
 		}
 		c.Note("family_"+f.Name+"_designs", len(specs))
 	}
+	c.Note("method_cases_given_to_goa", filtered)
 	c.Note("method_cases_rejected_by_goa", rejected)
 	c.Note("collect_designs_wall_s", time.Since(t0).Seconds())
-	return out, nil
+	return sel, others, nil
 }
